@@ -185,6 +185,7 @@ func addVariantSet(r *Rng, b *bundle.Bundle, mode int) {
 		b.Exchanges = append(b.Exchanges, &bundle.Exchange{Request: bundle.Request{URL: u, Header: http.Header{}},
 			Response: bundle.Response{Status: 200, Header: h, Body: body}})
 	}
+	n0 := len(b.Exchanges)
 	skip := -1
 	if mode == 1 { // incomplete coverage
 		skip = r.Intn(len(keys))
@@ -206,6 +207,10 @@ func addVariantSet(r *Rng, b *bundle.Bundle, mode int) {
 	}
 	if mode == 4 { // key outside the axes
 		add("xx;yy", []byte("bad"))
+	}
+	if mode == 6 { // (replaces the set) a single representation that nevertheless carries Variants / Variant-Key
+		b.Exchanges = b.Exchanges[:n0]
+		add(strings.Join(keys[0], ";"), []byte("only one"))
 	}
 	if mode == 5 && len(b.Exchanges) > 0 { // a key that differs from an axis value in letter case only: no match
 		e := b.Exchanges[len(b.Exchanges)-1]
@@ -230,7 +235,7 @@ func genC03(r *Rng, tier string) []Case {
 		}
 		b := randBundle(r, ver, k)
 		if ver == bver.VersionB1 && r.Chance(1, 3) {
-			addVariantSet(r, b, []int{0, 0, 0, 1, 2, 3, 4, 5}[r.Intn(8)])
+			addVariantSet(r, b, []int{0, 0, 0, 1, 2, 3, 4, 5, 6}[r.Intn(9)])
 		}
 		if ver == bver.VersionB2 && r.Chance(1, 12) && k > 0 { // two resources for one URL: refused
 			b.Exchanges = append(b.Exchanges, b.Exchanges[0])
@@ -365,7 +370,7 @@ func genC04(r *Rng, tier string) []Case {
 		for k := -1; k <= total; k++ {
 			cs = append(cs, Case{"cw_writes", []Sx{L(chunks...), Zi(int64(k)), Zi(int64(r.Intn(2)))}})
 			if i%2 == 0 { // the same through ReadFrom's own copy loop, the source ending in EOF or in an error
-				cs = append(cs, Case{"cw_readfrom", []Sx{L(chunks...), Zi(int64(k)), Zi(int64(r.Intn(2))), Zi(int64(r.Intn(3) / 2))}})
+				cs = append(cs, Case{"cw_readfrom", []Sx{L(chunks...), Zi(int64(k)), Zi(int64(r.Intn(2))), Zi(int64(r.Intn(3)))}})
 			}
 		}
 	}
@@ -392,16 +397,16 @@ type bbEntry struct {
 }
 
 type bb struct {
-	ver        bver.Version
-	primary    string
-	entries    []bbEntry
-	indexCount *uint64
-	items      [][]byte
-	respCount  *uint64
-	extra      []bbSection // other sections in order: (before index if name starts with '<')
-	tableCount *uint64
-	headCount  *uint64
-	order      []string
+	ver          bver.Version
+	primary      string
+	entries      []bbEntry
+	indexCount   *uint64
+	items        [][]byte
+	respCount    *uint64
+	extra        []bbSection // other sections in order: (before index if name starts with '<')
+	tableCount   *uint64
+	headCount    *uint64
+	order        []string
 	declOverride map[string]uint64
 }
 
@@ -618,6 +623,34 @@ func genC05(r *Rng, tier string) []Case {
 					}
 				}
 			}
+			// b1: a variants-value whose number of possible keys overflows int64 (63, 64, 70 axes of two values)
+			if ver == bver.VersionB1 {
+				for _, nax := range []int{13, 14, 62, 63, 64, 65, 70, 128} {
+					axes := []string{}
+					for a := 0; a < nax; a++ {
+						axes = append(axes, fmt.Sprintf("A%d;x;y", a))
+					}
+					c := clone()
+					c.entries[0].variants = []byte(strings.Join(axes, ", "))
+					read(c.build())
+					c = clone() // ... and no location at all (what a key count wrapped to 0 would ask for)
+					c.entries[0].variants = []byte(strings.Join(axes, ", "))
+					c.entries[0].locs = nil
+					read(c.build())
+				}
+			}
+			// duplicated response header names: first value empty / both non-empty / three times
+			for _, dup := range [][][2]string{{{"content-type", ""}, {"content-type", "injected"}}, {{"x-a", "1"}, {"x-a", "2"}}, {{"x-a", ""}, {"x-a", ""}, {"x-a", "z"}}, {{"x-a", ""}}} {
+				c := clone()
+				c.items[0] = respItem("200", dup, []byte("x"))
+				c.entries[0].locs[0][1] = uint64(len(c.items[0]))
+				off := c.entries[0].locs[0][0] + uint64(len(c.items[0]))
+				for k := 1; k < len(c.entries); k++ {
+					c.entries[k].locs[0][0] = off
+					off += c.entries[k].locs[0][1]
+				}
+				read(c.build())
+			}
 			// :status spellings the reader must refuse (only three ASCII digits are a status)
 			for _, st := range []string{"+200", "0200", "0000000301", "-200", "20", "2000", " 200", "200 ", "2e2", "٢٠٠", "", "099", "100", "999"} {
 				c := clone()
@@ -824,7 +857,6 @@ func genC05(r *Rng, tier string) []Case {
 	}
 	return cs
 }
-
 
 func init() {
 	regGen("C03", genC03)
